@@ -185,6 +185,22 @@ func FamilyPtrs(thorough bool) []*Conv {
 		cv.FailNote = "*T -> T without useZeroValueOnPointerInconsistency"
 		out = append(out, cv)
 	}
+	// the flag written on one method is not inherited by generated helpers (documented) - and a helper is shared:
+	// a sibling without the flag that needs the same *T -> U pair is rejected, whichever method is built first
+	for i, f := range []string{"struct", "function", "variable"} {
+		sibName := []string{"APFXFirst", "ZPFXLast", "APFXFirst"}[i]
+		sib := "\t// goverter:useZeroValueOnPointerInconsistency\n\t" + sibName + "(source PFXHa) PFXHao\n"
+		if f == "variable" {
+			sib = strings.Replace(sib, sibName+"(", sibName+" func(", 1)
+		}
+		out = append(out, &Conv{
+			ID: "ptrs/fail_method_flag_not_shared_through_helper/" + f, Family: "ptrs", Format: f,
+			Params: "source PFXHb", Results: "PFXHbo",
+			Decls:        "type PFXHi struct{ ID int }\ntype PFXHio struct{ ID int }\ntype PFXHa struct{ In *PFXHi }\ntype PFXHao struct{ In PFXHio }\ntype PFXHb struct {\n\tIn *PFXHi\n\tN int\n}\ntype PFXHbo struct {\n\tIn PFXHio\n\tN int\n}\n",
+			ExtraMethods: sib, Spec: &Spec{}, ExpectFail: true, Solo: true,
+			FailNote: "*T -> U in a method without useZeroValueOnPointerInconsistency (a sibling method has the flag and needs the same helper)",
+		})
+	}
 	return out
 }
 
@@ -221,6 +237,7 @@ func FamilyUpdate(thorough bool) []*Conv {
 		{"A", "int", "int", ""},
 		{"R", "PFXLs", "PFXLt", "type PFXLs []int\ntype PFXLt []int"},
 		{"S", "PFXMs", "PFXMt", "type PFXMs map[string]int\ntype PFXMt map[string]int"},
+		{"T", "*PFXPs", "*PFXPt", "type PFXPs struct{ X int }\ntype PFXPt struct{ X int }"},
 	}
 	type variant struct {
 		name   string
@@ -300,7 +317,13 @@ func FamilyUpdate(thorough bool) []*Conv {
 					// settings at the three levels in turn
 					switch n % 3 {
 					case 0:
-						cv.MethodLines = append(cv.MethodLines, lines...)
+						if (n/3)%2 == 1 {
+							// (the order of the lines of one comment does not matter for different settings: the
+							// zero-value lines above the update line)
+							cv.MethodLines = append(append([]string{}, lines...), cv.MethodLines...)
+						} else {
+							cv.MethodLines = append(cv.MethodLines, lines...)
+						}
 					case 1:
 						cv.ConvLines = append(cv.ConvLines, lines...)
 					case 2:
@@ -330,6 +353,11 @@ func FamilyUpdate(thorough bool) []*Conv {
 	for _, ov := range overrides {
 		n++
 		u := ov.u
+		mlines := append([]string{"update target", "ignore Keep Only"}, ov.m...)
+		if n%2 == 1 {
+			// the method's own lines above its update line
+			mlines = append(append([]string{}, ov.m...), "update target", "ignore Keep Only")
+		}
 		out = append(out, &Conv{
 			ID:      "update/override/" + ov.name,
 			Family:  "update",
@@ -338,7 +366,7 @@ func FamilyUpdate(thorough bool) []*Conv {
 			Results: []string{"", "error"}[n%2],
 			Decls:   "type PFXIa struct {\n\tX int\n\tY string\n}\ntype PFXIb struct {\n\tX int\n\tY string\n}\ntype PFXIn struct {\n\tA int\n\tB string\n\tD PFXIa\n\tF []int\n\tG map[string]int\n\tKeep int\n}\ntype PFXOut struct {\n\tA int\n\tB string\n\tD PFXIb\n\tF []int\n\tG map[string]int\n\tKeep int\n\tOnly string\n}\n",
 			CLI:     ov.cli, ConvLines: ov.conv,
-			MethodLines: append([]string{"update target", "ignore Keep Only"}, ov.m...),
+			MethodLines: mlines,
 			Spec:        &Spec{Update: &u, Pairs: map[string]*PairSpec{"PFXIn→PFXOut": {Fields: map[string]*FieldSpec{"Keep": {Ignore: true}, "Only": {Ignore: true}}}}},
 		})
 	}
@@ -870,6 +898,20 @@ func FamilyDefault(thorough bool) []*Conv {
 			})
 		}
 	}
+	// default on a method whose pair is a map: the method starts from FUNC's result (FUNC is called, a nil source
+	// returns what it returned)
+	for i, mc := range []struct{ name, src, tgt string }{
+		{"structs", "map[string]PFXS", "map[string]PFXT"}, {"basic", "map[int]string", "map[int]string"}, {"ptrs", "map[string]*PFXS", "map[string]*PFXT"},
+	} {
+		out = append(out, &Conv{
+			ID: "default/map_method_" + mc.name, Family: "default", Format: []string{"struct", "function", "variable"}[i%3],
+			Params: "source " + mc.src, Results: mc.tgt,
+			Decls:       "type PFXS struct{ A int }\ntype PFXT struct{ A int }\n" + fmt.Sprintf("func PFXNew() %s { return nil }\n", mc.tgt),
+			MethodLines: []string{"default PFXNew"},
+			Spec:        &Spec{Update: &UpdateSpec{DefaultFn: "PFXNew"}},
+			Bounds:      &Bounds{MaxSlice: 1, MaxMap: 2, RecDepth: 1},
+		})
+	}
 	// a default FUNC whose source parameter has the pointee type of a pointer source is a signature mismatch
 	out = append(out, &Conv{
 		ID: "default/fail_pointee_source_param", Family: "default", Format: "struct",
@@ -1083,6 +1125,19 @@ func FamilySameType(thorough bool) []*Conv {
 			cv.AnyOutcome, cv.Solo = true, true
 			out = append(out, cv)
 		}
+	}
+	// array targets (not supported by the pinned tree: TypeMismatch): should a conversion into an array ever be
+	// generated, its elements are converted like everything else (either outcome of generation is fine, sharing or
+	// lost values are not)
+	for _, pos := range []struct{ name, src, tgt string }{
+		{"ptr_elems", "[2]*int", "[2]*int"}, {"slice_elems", "[2][]string", "[2][]string"},
+		{"fields", "struct {\n\tSlots [2]*int\n\tRows [2][]string\n\tN [2]int\n}", "struct {\n\tSlots [2]*int\n\tRows [2][]string\n\tN [2]int\n}"},
+		{"struct_elems", "[]struct{ A [1]map[string]int }", "[]struct{ A [1]map[string]int }"},
+	} {
+		cv := shapeConv("sametype", shape{Src: pos.src, Tgt: pos.tgt, Name: "array_target_" + pos.name}, formats[fi%3], nil, nil)
+		fi++
+		cv.AnyOutcome, cv.Solo = true, true
+		out = append(out, cv)
 	}
 	// ... and *T -> T where T is a defined reference type (map, slice, pointer) or a struct made of such fields:
 	// dereferencing copies the header only, the content still has to be copied
